@@ -38,6 +38,14 @@ def _():
     return BioConsert(starting_algorithms=[KwikSortRandom(), BordaCount()])
 
 
+@_reg("BioConsert[BioConsert,BioConsert[Borda]]")
+def _():
+    # nested BioConserts as starters (they carry the same name): the second one refuses what Borda refuses
+    from corankco.algorithms.bioconsert.bioconsert import BioConsert
+    from corankco.algorithms.borda.borda import BordaCount
+    return BioConsert(starting_algorithms=[BioConsert(), BioConsert(starting_algorithms=[BordaCount()])])
+
+
 @_reg("BioConsert[PickAPerm]")
 def _():
     from corankco.algorithms.bioconsert.bioconsert import BioConsert
